@@ -12,15 +12,17 @@ CONSTANT CheckBAL      \* TRUE: Finalise events carry the projected block access
 Trace == ndJsonDeserialize(IOEnv.TRACE)
 
 VARIABLES s,    \* the specification's StateDB
+          blk,  \* block-level access list expected so far (CheckBAL only)
           l     \* next line of the trace to explain
 
 Ev == Trace[l]
 Logged == Ev.ok /\ Proj(s') = Ev.st
-Step(A) == l <= Len(Trace) /\ A /\ l' = l + 1
+StepB(A) == l <= Len(Trace) /\ A /\ l' = l + 1
+Step(A) == StepB(A /\ UNCHANGED blk)
 Is(op) == Ev.op = op
 InTx == s.intx
 
-TReset    == Step(Is("reset") /\ s' = Open(RuleSet(Ev.rules), Ev.world) /\ Logged)
+TReset    == StepB(Is("reset") /\ s' = Open(RuleSet(Ev.rules), Ev.world) /\ blk' = EmptyBlock /\ Logged)
 TBeginTx  == Step(Is("BeginTx") /\ ~InTx /\ s' = BeginTx(s, Ev.a) /\ Logged)
 TAddBal   == Step(Is("AddBalance") /\ InTx /\ s' = AddBalance(s, Ev.a, Ev.v) /\ Logged)
 TSubBal   == Step(Is("SubBalance") /\ InTx /\ CanSubBalance(s, Ev.a, Ev.v) /\ s' = SubBalance(s, Ev.a, Ev.v) /\ Logged)
@@ -42,22 +44,27 @@ TAddLog   == Step(Is("AddLog") /\ InTx /\ s' = AddLog(s, Ev.v) /\ Logged)
 TSnapshot == Step(Is("Snapshot") /\ InTx /\ s' = Snapshot(s) /\ Logged)
 TRevert   == Step(Is("Revert") /\ InTx /\ CanRevert(s, Ev.i) /\ s' = Revert(s, Ev.i) /\ Logged)
 (* the list returned by the real Finalise must be the net difference of the transaction *)
-TFinalise == Step(Is("Finalise") /\ InTx /\ s' = Finalise(s) /\ Logged
-                  /\ (CheckBAL => Ev.bal = ExpectedBAL(s)))
+TFinalise == StepB(Is("Finalise") /\ InTx /\ s' = Finalise(s) /\ Logged
+                   /\ IF CheckBAL THEN Ev.bal = ExpectedBAL(s) /\ blk' = MergeTx(blk, ExpectedBAL(s), s.txn + 1)
+                                   ELSE UNCHANGED blk)
+(* end of a block: the encoding object of the merged list (sorted, strictly increasing, duplicate free, *)
+(* reads and writes disjoint, indexes within the block) holds exactly the merged expected changes      *)
+TEndBlock == Step(Is("EndBlock") /\ ~InTx /\ CheckBAL /\ UNCHANGED s /\ Logged
+                  /\ EncodingMatches(blk, Ev.blk, s.txn + 1))
 (* Ev.ok includes: the real root equals the StackTrie root of the logged world, which is the model's world *)
-TIRoot    == Step(Is("IntermediateRoot") /\ InTx /\ s' = Finalise(s) /\ Logged)
+TIRoot    == Step(Is("IntermediateRoot") /\ InTx /\ ~CheckBAL /\ s' = Finalise(s) /\ Logged)
 
-TraceInit == s = Open(RulesPre158, EmptyWorld) /\ l = 1
+TraceInit == s = Open(RulesPre158, EmptyWorld) /\ blk = EmptyBlock /\ l = 1
 TraceNext == \/ TReset \/ TBeginTx \/ TAddBal \/ TSubBal \/ TSetBal \/ TSetNonce \/ TSetCode \/ TSetState
              \/ TDestruct \/ TCreateA \/ TEvmCreate \/ TReadAcc \/ TReadSlot \/ TSetTrn \/ TAddAddr \/ TAddSlot
-             \/ TAddRef \/ TSubRef \/ TAddLog \/ TSnapshot \/ TRevert \/ TFinalise \/ TIRoot
-TraceSpec == TraceInit /\ [][TraceNext]_<<s, l>>
+             \/ TAddRef \/ TSubRef \/ TAddLog \/ TSnapshot \/ TRevert \/ TFinalise \/ TIRoot \/ TEndBlock
+TraceSpec == TraceInit /\ [][TraceNext]_<<s, blk, l>>
 
 InvType     == TypeOK(s)
 InvRevert   == RevertRestores(s)
 InvFinalise == FinaliseClears(s)
 InvFeasible == Feasible(s)
-InvBAL      == BALInvariants(s)
+InvBAL      == BALInvariants(s) /\ Functional(blk)
 
 TraceAccepted == TLCGet("stats").diameter - 1 = Len(Trace)
 =============================================================================
